@@ -20,6 +20,7 @@ import (
 	"strings"
 	"time"
 
+	"github.com/aws/aws-sdk-go-v2/service/s3/types"
 	"github.com/gofiber/fiber/v2"
 	"github.com/versity/versitygw/auth"
 )
@@ -35,6 +36,9 @@ type EventMeta struct {
 	ObjectSize  int64
 	ObjectETag  *string
 	VersionId   *string
+	// DeletedObjects are the objects a DeleteObjects request removed,
+	// one event is sent for each of them
+	DeletedObjects []types.DeletedObject
 }
 
 type EventSchema struct {
